@@ -45,6 +45,14 @@ Definition abs_eqb (d : disc) (a b : list Z) : bool :=
   | _ => zlist_eqb a b
   end.
 
+(* what a fresh container of the family must hold after decoding a document whose array is [src]: the same
+   contents - for the bounded queue, whose capacity may be smaller than the document, the LAST cap values in order *)
+Definition restored_ref (d : disc) (src : list Z) : list Z :=
+  match d with
+  | DRing cap => skipn (length src - cap) src
+  | _ => src
+  end.
+
 (* ----- containers whose abstract contents are a finite map / bijection: abs = list of (key, value) ----- *)
 Inductive mdisc := MHash | MLinked | MTree | MBidiHash | MBidiTree.
 Inductive pop := PPut (k v : Z) | PDel (k : Z).
